@@ -237,6 +237,7 @@ def main_check(mod, tier, seed, replay=None):
     ctx = Ctx(pid, tier, seed)
     if replay:
         ctx.known_keys = set()
+        ctx.disabled_tags = set()
         out = replay_case(mod, ctx, replay)
         if out.ok or out.discard:
             print("replay %s: property held (%s)" % (replay, out.detail or "ok"))
@@ -259,6 +260,7 @@ def main_check(mod, tier, seed, replay=None):
             rel = "replays/" + name
             nctx = Ctx(pid, tier, seed)
             nctx.known_keys = set()
+            nctx.disabled_tags = set()
             out = replay_case(mod, nctx, rp)
             reg += 1
             ent = by_replay.get(rel)
